@@ -25,6 +25,14 @@ package utils
 // decodes and measures; writes nothing but the debug log
 //@ func IsValidChecksum
 //@   frame none
+// C02: every x-amz-* header of an accepted request is covered by its signature (one that is not could be added to a
+// captured request)
+//@ func hasUnsignedAmzHeader
+//@   pure
+//@ func CheckValidSignature
+//@   at-return {C02} [no-amz-header-outside-the-signature] when ret0 == nil :: ensures !hasUnsignedAmzHeader(ctx, signedHdrs)
+//@ func CheckPresignedSignature
+//@   at-return {C02} [no-amz-header-outside-the-signature] when ret0 == nil :: ensures !hasUnsignedAmzHeader(ctx, signedHdrs)
 //@ func IsSpecialPayload
 //@   pure
 //@ func IsStreamingPayload
